@@ -449,6 +449,10 @@ def run(ck):
     n3 = signedness(ck, agg)
     n4 = rx_queue_discipline(ck, agg, b)
     n5 = url_tables(ck, agg)
+    # reception de-whitens with the coefficient of the channel index: "received on the same channel" needs the index to name the frequency
+    # the radio is tuned to after every hop_channel() / `channel = x` (C18's paired-update rule R18.4, re-run here)
+    from . import c18
+    c18.channel_pairing(ck, agg, b)
     agg.flush()
     ck.floor("R19.1", "available() paths", n1, 5)
     ck.floor("R19.1", "raise-capable site evaluations", sites, 8)
